@@ -944,12 +944,30 @@ func (f *fn) stmts(list []ast.Stmt, k konts) []string {
 				}
 				vs := f.assigned(x.Pos(), nodes...)
 				kk := konts{fall: "pure " + f.tuple(vs)}
-				out = append(out, f.bindTuple(vs, ""))
-				out[len(out)-1] = strings.TrimRight(out[len(out)-1], " ")
+				thenL := f.stmts(x.Body.List, kk)
+				elseL := f.stmts(els, kk)
+				pureArms := true
+				for _, l := range append(append([]string{}, thenL...), elseL...) {
+					if strings.Contains(l, "←") {
+						pureArms = false
+					}
+				}
+				if pureArms && len(vs) > 0 {
+					// no effect in either arm: an ordinary conditional expression
+					thenL[len(thenL)-1] = strings.TrimPrefix(thenL[len(thenL)-1], "pure ")
+					elseL[len(elseL)-1] = strings.TrimPrefix(elseL[len(elseL)-1], "pure ")
+					out = append(out, "let "+f.tuple(vs)+" : "+f.tupleType(vs)+" :=")
+					out = append(out, "  if "+cond+" then")
+					out = append(out, ind(thenL, 4)...)
+					out = append(out, "  else")
+					out = append(out, ind(elseL, 4)...)
+					break
+				}
+				out = append(out, strings.TrimRight(f.bindTuple(vs, ""), " "))
 				out = append(out, "  if "+cond+" then do")
-				out = append(out, ind(f.stmts(x.Body.List, kk), 4)...)
+				out = append(out, ind(thenL, 4)...)
 				out = append(out, "  else do")
-				out = append(out, ind(f.stmts(els, kk), 4)...)
+				out = append(out, ind(elseL, 4)...)
 			case thenT:
 				out = append(out, "if "+cond+" then do")
 				out = append(out, ind(f.stmts(x.Body.List, k), 2)...)
